@@ -10,7 +10,9 @@ package cl
 import (
 	"fmt"
 	"math/big"
+	"runtime/debug"
 	"sort"
+	"strings"
 	"time"
 
 	"github.com/cosmos/cosmos-sdk/codec"
@@ -378,7 +380,7 @@ func (Engine) Execute(run *simcore.Run) {
 			run.Event(st.Op, "ok")
 			run.Logf("%d %s h=%d t=%s hash=%x", i, st.Op, n.Height, n.Time.Sub(simchain.GenesisTime), n.LastAppHash[:6])
 		default:
-			if !w.step(i, st) {
+			if !w.guardedStep(i, st) {
 				return
 			}
 		}
@@ -393,4 +395,27 @@ func (Engine) Execute(run *simcore.Run) {
 		}
 	}
 	end()
+}
+
+// guardedStep runs one step; a panic raised by the module's own code while an oracle queries it
+// (message handlers are already isolated by Deliver) is a violation, not a harness failure.
+func (w *world) guardedStep(i int, st simcore.Step) (ok bool) {
+	defer func() {
+		if x := recover(); x != nil {
+			stk := string(debug.Stack())
+			if !strings.Contains(stk, "/x/concentrated-liquidity") && !strings.Contains(stk, "/osmoutils/") {
+				panic(x)
+			}
+			prop := "C07"
+			switch {
+			case strings.Contains(stk, "incentives.go") || strings.Contains(stk, "/osmoutils/accum"):
+				prop = "C08"
+			case strings.Contains(stk, "spread_rewards.go"):
+				prop = "C01"
+			}
+			w.run.Fail(prop, "query-panics", st.Op, "a query of the module panicked: %v", x)
+			ok = false
+		}
+	}()
+	return w.step(i, st)
 }
